@@ -4,7 +4,7 @@
 //! decode   real `.col`/`.zfc` files holding arbitrary block bytes  = `decodeBlock`
 //! scalar   `ScalarValue::from` / `to_json` / WAL line round trip    = `ofJson`/`toJson`/`walTier`
 //! f64parse Rust `str::parse::<f64>`                                 = `Snel.F64Parse.parseF64`
-//! flush    real `ZoneWriter` segment, `ColumnReader`, `ConditionEvaluator` rows, recompaction
+//! flush    real `ColumnWriter` segment files, `ColumnReader`, `ConditionEvaluator` rows, recompaction
 //!          through `into_scalar_values` + `ZonePlan::from_rows`      = the four tier functions
 //! project  real `build_memtable_flow` header / cells                = `ReturnProjection.projection`
 use std::collections::{BTreeMap, BTreeSet, HashMap};
@@ -23,7 +23,7 @@ use snel_db::engine::core::write::column_block_writer::ColumnBlockWriter;
 use snel_db::engine::core::write::column_group_builder::ColumnGroupBuilder;
 use snel_db::engine::core::{
     CandidateZone, ColumnReader, ColumnValues, ConditionEvaluator, Event, EventBuilder, EventId,
-    WalEntry, WriteJob, ZonePlan, ZoneRow, ZoneWriter,
+    ColumnWriter, WalEntry, WriteJob, ZonePlan, ZoneRow,
 };
 use snel_db::engine::schema::registry::{MiniSchema, SchemaRegistry};
 use snel_db::engine::schema::types::{EnumType, FieldType};
@@ -127,6 +127,13 @@ impl Tables {
             out.push_str(&format!(" F{:016x}={}", b, hexs(&f64::from_bits(*b).to_string())));
         }
         if with_json {
+            for b in &self.floats {
+                let f = f64::from_bits(*b);
+                if f.is_finite() {
+                    let back: f64 = serde_json::from_str(&serde_json::to_string(&f).unwrap()).unwrap();
+                    out.push_str(&format!(" W{:016x}={:016x}", b, back.to_bits()));
+                }
+            }
             for s in &self.strings {
                 out.push_str(&format!(" J{}={}", hexs(s), verdict_tok(s)));
             }
@@ -373,13 +380,13 @@ fn stream_block(a: &Args) {
             Some((p, vals)) => {
                 let cells = cell_toks(*p, vals);
                 let sc = ColumnBlockSnapshot::new(*p, vals.clone()).into_scalar_values();
-                format!(
-                    "{} {} {} # {}",
-                    hex(&buf),
-                    phys_code(*p),
-                    cells.join(" "),
-                    sc.iter().map(scalar_tok).collect::<Vec<_>>().join(" ")
-                )
+{
+                    let mut toks = vec![hex(&buf), phys_code(*p).to_string()];
+                    toks.extend(cells);
+                    toks.push("#".to_string());
+                    toks.extend(sc.iter().map(scalar_tok));
+                    toks.join(" ")
+                }
             }
         };
         s.tally(&format!("phys={:?}", phys));
@@ -471,8 +478,12 @@ fn read_via_files(dir: &Path, tag: u64, bytes: &[u8], rows: u32) -> Option<(Phys
     let res = std::panic::catch_unwind(|| {
         let snap = ColumnReader::load_for_zone_snapshot(&seg, "seg", "uid", "fld", 3, None).ok()?;
         let phys = snap.physical_type();
+        let scalars = snap.clone().into_scalar_values();
         let vals = snap.into_values();
-        Some((phys, cell_toks(phys, &vals)))
+        let mut toks = cell_toks(phys, &vals);
+        toks.push("#".to_string());
+        toks.extend(scalars.iter().map(scalar_tok));
+        Some((phys, toks))
     });
     let _ = std::fs::remove_dir_all(&seg);
     res.unwrap_or(None)
@@ -539,14 +550,23 @@ fn stream_decode(a: &Args) {
         let got = read_via_files(&dir, i, &buf, rows);
         let imp = match &got {
             None => "none".to_string(),
-            Some((p, cells)) => format!("{} {}", phys_code(*p), cells.join(" ")),
+            Some((p, cells)) => {
+                let mut toks = vec![phys_code(*p).to_string()];
+                toks.extend(cells.iter().cloned());
+                toks.join(" ")
+            }
         };
         s.tally(&format!("mutation={kind}"));
         s.tally(if got.is_some() { "decoded" } else { "rejected" });
         s.case(&op, &imp, got.is_some());
         // oracle: the untouched block read back through lz4 + file + mmap equals the in-memory decode
         if kind == 0 {
-            let mem = decode_in_memory(&buf, n).map(|(p, v)| (p, cell_toks(p, &v)));
+            let mem = decode_in_memory(&buf, n).map(|(p, v)| {
+                let mut toks = cell_toks(p, &v);
+                toks.push("#".to_string());
+                toks.extend(ColumnBlockSnapshot::new(p, v.clone()).into_scalar_values().iter().map(scalar_tok));
+                (p, toks)
+            });
             if mem == got && got.is_some() { s.oracle_ok() } else { s.oracle_fail(i, "-", &format!("file round trip differs from in-memory decode: {op}")) }
         }
     }
@@ -596,6 +616,16 @@ fn json_same(a: &Json, b: &Json) -> bool {
     }
 }
 
+/// The stored value is a float whose shortest decimal text serde_json reads back as another float.
+fn wal_float_class(n: &serde_json::Number) -> bool {
+    if !n.is_f64() {
+        return false;
+    }
+    let f = n.as_f64().unwrap();
+    let back: f64 = serde_json::from_str(&serde_json::to_string(&f).unwrap()).unwrap();
+    back.to_bits() != f.to_bits()
+}
+
 fn reparse_class(s: &str) -> bool {
     match serde_json::from_str::<Json>(s) {
         Ok(Json::Array(_)) | Ok(Json::Object(_)) => true,
@@ -632,7 +662,11 @@ fn stream_scalar(a: &Args) {
             match got {
                 Some(g) if json_same(&g, &j) => {}
                 Some(g) => {
-                    let class = match &j { Json::String(x) if reparse_class(x) => "string-reparsed-as-json", _ => "-" };
+                    let class = match &j {
+                        Json::String(x) if reparse_class(x) => "string-reparsed-as-json",
+                        Json::Number(n) if tier == "wal" && wal_float_class(n) => "wal-float-text-roundtrip",
+                        _ => "-",
+                    };
                     fail = Some((class, format!("{tier}: stored {} rendered {}", json_tok(&j), json_tok(&g))));
                 }
                 None => fail = Some(("-", format!("{tier}: WAL line does not read back for {}", json_tok(&j)))),
@@ -877,10 +911,10 @@ async fn flush_case(env: &FlushEnv, i: u64, r: &mut Rng, s: &mut Stream) {
     let seg1 = env.dir.join(format!("{i}")).join("00001");
     std::fs::create_dir_all(&seg1).unwrap();
     let plan = ZonePlan { id: 0, start_index: 0, end_index: n - 1, events: events.clone(), uid: uid.clone(), event_type: et.clone(), segment_id: 1, created_at: 1 };
-    if let Err(e) = ZoneWriter::new(&uid, &seg1, Arc::clone(&env.registry)).write_all(&[plan]).await {
+    if let Err(e) = ColumnWriter::new(seg1.clone(), Arc::clone(&env.registry)).write_all(&[plan]).await {
         s.tally("zone_writer_error");
         s.case(&op, &format!("write-error {e:?}"), false);
-        s.oracle_fail(i, "-", &format!("ZoneWriter failed: {e:?}"));
+        s.oracle_fail(i, "-", &format!("ColumnWriter failed: {e:?}"));
         return;
     }
     let present: Vec<String> = names.iter().enumerate().filter(|(c, _)| vals.iter().any(|row| row[*c].is_some())).map(|(_, nm)| nm.clone()).collect();
@@ -907,7 +941,7 @@ async fn flush_case(env: &FlushEnv, i: u64, r: &mut Rng, s: &mut Stream) {
     let seg2 = env.dir.join(format!("{i}")).join("10000");
     std::fs::create_dir_all(&seg2).unwrap();
     let plan2 = ZonePlan::from_rows(rows, uid.clone(), 10000, 0, 1).expect("from_rows");
-    let compacted = match ZoneWriter::new(&uid, &seg2, Arc::clone(&env.registry)).with_type_catalog(catalog).write_all(&[plan2]).await {
+    let compacted = match ColumnWriter::new(seg2.clone(), Arc::clone(&env.registry)).with_type_hints(catalog).write_all(&[plan2]).await {
         Ok(()) => read_segment(&seg2, "10000", &uid, &load).await.map(|x| x.0),
         Err(e) => Err(format!("{e:?}")),
     };
@@ -938,6 +972,7 @@ async fn flush_case(env: &FlushEnv, i: u64, r: &mut Rng, s: &mut Stream) {
                 let class: &'static str = match &want {
                     Json::Null if ft.is_stringy() && g == json!("") && (tier == "flushed" || tier == "compacted") => "null-as-empty-string",
                     Json::String(x) if reparse_class(x) => "string-reparsed-as-json",
+                    Json::Number(nn) if tier == "wal" && wal_float_class(nn) => "wal-float-text-roundtrip",
                     Json::String(x) if (tier == "flushed" || tier == "compacted") && retyped_class(x) => "flushed-string-retyped",
                     Json::Number(nn) if ft.is_float() && !nn.is_f64() && (tier == "flushed" || tier == "compacted") && int_not_exact(nn) => "int-in-float-column-rounded",
                     _ => "-",
